@@ -221,13 +221,19 @@ class Dict(Sort):
 
 
 class BDictSort(Sort):
-    """dict[Ballot, Fraction] (insertion ordered; lookup through Ballot.__hash__/__eq__)"""
+    """dict[Ballot, Fraction] (insertion ordered; lookup through Ballot.__hash__/__eq__), or -- kelem = "strseq" -- dict[tuple[str, ...], int]
+    (lookup by structural equality of the key tuples)"""
+
+    def __init__(self, kelem="ballot"):
+        self.kelem = kelem
 
     def __repr__(self):
-        return "BDict"
+        return "BDict" if self.kelem == "ballot" else "SDict"
 
 
 BDict = BDictSort()
+SDict = BDictSort("strseq")
+SeqSeqStr = z3.SeqSort(z3.SeqSort(PyStr))
 
 
 class TBDict(Sort):
@@ -315,8 +321,8 @@ class VDict(V):
 class VBDict(V):
     """dict keyed by Ballot: insertion-ordered key sequence + aligned value sequence (S-DICT)"""
 
-    def __init__(self, keys, vals):
-        self.keys, self.vals = keys, vals
+    def __init__(self, keys, vals, kelem="ballot"):
+        self.keys, self.vals, self.kelem = keys, vals, kelem
 
 
 class VTBDict(V):
@@ -406,7 +412,7 @@ def fresh(sort: Sort, name: str) -> V:
     if isinstance(sort, Dict):
         return VDict(z3.Const(n + "_keys", CSetS), z3.Const(n + "_vals", RMapS), sort.val)
     if isinstance(sort, BDictSort):
-        return VBDict(z3.Const(n + "_bkeys", SeqBallot), z3.Const(n + "_bvals", z3.SeqSort(z3.RealSort())))
+        return VBDict(z3.Const(n + "_bkeys", SeqBallot if sort.kelem == "ballot" else SeqSeqStr), z3.Const(n + "_bvals", z3.SeqSort(z3.RealSort())), sort.kelem)
     if isinstance(sort, TBDict):
         return VTBDict(z3.Bool(n + "_has"), z3.Const(n + "_key", CSetS), z3.Const(n + "_val", SeqCSet))
     if isinstance(sort, Tup):
@@ -458,7 +464,7 @@ def sort_of(v: V) -> Sort:
     if isinstance(v, VDict):
         return Dict(v.val)
     if isinstance(v, VBDict):
-        return BDict
+        return BDict if v.kelem == "ballot" else SDict
     if isinstance(v, VTBDict):
         return TBDictS
     if isinstance(v, VTup):
